@@ -69,7 +69,10 @@ def oracle(hist, records):
             v = view(spec, t, rec)
             present = all(x is not None for x in v.values())
             ins_present = all(x is not None for k, x in v.items() if k == "module" or k[0] == "in")
-            changed = snap.get(tid) != v
+            # changed = some CURRENT neighbour differs from what was recorded for it (or was never recorded); a neighbour that the
+            # task no longer has does not count
+            sn = snap.get(tid)
+            changed = sn is None or any(sn.get(k, "<none>") != val for k, val in v.items())
             # dry run: a task below a task that would be executed carries the would_be_executed mark; whether its nodes will
             # still be changed once the ancestors really ran cannot be known, so it must be announced WOULD_BE_EXECUTED and
             # never PERSISTENCE (repair of F20)
@@ -90,6 +93,11 @@ def oracle(hist, records):
                         bad.append(("persist", f"persist task {tid}: dependencies and products all exist and something changed, reported {out.get(tid)} instead of PERSISTENCE", None))
                     elif not cfg.get("dry"):
                         new_quiet[tid] = v
+                if not ins_present:
+                    # "whose dependencies and products all exist": with a missing dependency the mark must not fire
+                    STATS["missing-dependency-antecedent"] += 1
+                    if out.get(tid) == "PERSISTENCE":
+                        bad.append(("missingdep", f"persist task {tid} has a missing dependency but is reported PERSISTENCE", None))
                 if ins_present and not present and not cfg.get("dry"):
                     STATS["missing-product-antecedent"] += 1
                     if tid not in ex:
@@ -140,8 +148,12 @@ def rand_edit(rng, spec):
         return ["write", rng.choice(pprods or prods), rng.randint(1000, 9999)]     # tampered product
     if r < 0.80 and (pprods or prods):
         return ["delete", rng.choice(pprods if pprods and rng.random() < 0.7 else prods)]
-    if r < 0.90 and prods:
+    if r < 0.86 and prods:
         return ["touch", rng.choice(prods + ins)]
+    hashed = {n for t in spec["tasks"] for n in t.get("pyhash_deps", [])}
+    pins = [d for t in spec["tasks"] if "persist" in t["marks"] for d in t["deps"] if d in ins and d not in hashed]
+    if r < 0.93 and pins:
+        return ["delete", rng.choice(pins)]          # a dependency of a persist task vanishes
     if ins:
         return ["write", rng.choice(ins), rng.randint(100, 999)]
     return None
@@ -156,7 +168,7 @@ def small_scope(ctx):
         {"id": 2, "module": 1, "deps": [], "prods": [113], "after": [1], "after_style": "expr", "marks": [], "beh": "ok", "style": "default"},
         {"id": 3, "module": 0, "deps": [110], "prods": [], "after": [], "marks": [], "beh": "ok", "style": "kwargs"}],
         "versions": {"0": 0, "1": 0}, "inputs": {"100": 7, "101": 3}}      # node 101 is a hashed Python value (PythonNode(hash=True)) of task 1
-    edits = [[["write", 100, 8]], [["write", 101, 4]], [["bump", 1]], [["write", 111, 4242]], [["delete", 112]], [["write", 110, 4343]], [["delete", 110]],
+    edits = [[["write", 100, 8]], [["delete", 100]], [["write", 101, 4]], [["bump", 1]], [["write", 111, 4242]], [["delete", 112]], [["write", 110, 4343]], [["delete", 110]],
              [["write", 113, 4444]], [["touch", 111]], [["delete", 111], ["write", 100, 9]], []]
     cfgs = [{}, {"force": True}, {"dry": True}, {"force": True, "dry": True}, {"k": "task_t00x"}, {"m": "persist"}]
     extra = [(), ((0, "skip"),), ((0, "early"),)]
@@ -207,9 +219,55 @@ def stack_scope(ctx):
     return hs
 
 
+def dirprod_scope(ctx):
+    """persist tasks that also have a DirectoryNode product (a provisional node: it has no state before the task ran), declared
+    before ("a") or after ("z") the file products × an edit of a dependency / the source / a product / a deleted product ×
+    plain, forced, dry-run builds, each followed by a plain build"""
+    hs = []
+    n = 0
+    for where in ("a", "z"):
+        for sub in ((1,), (0, 1)):
+            for ed in ([["write", 100, 8]], [["bump", 1]], [["write", 111, 4242]], [["delete", 111]], []):
+                for cfg in ({}, {"force": True}, {"dry": True}):
+                    n += 1
+                    if not ctx.thorough and ctx.budget == 1.0 and cfg and n % 2:
+                        continue
+                    spec = {"tasks": [
+                        {"id": 0, "module": 0, "deps": [100], "prods": [110], "after": [], "marks": [], "beh": "ok", "style": "default"},
+                        {"id": 1, "module": 1, "deps": [110], "prods": [111], "after": [], "marks": [], "beh": "ok", "style": "annotated", "dirprod": where},
+                        {"id": 2, "module": 1, "deps": [111], "prods": [112], "after": [], "marks": [], "beh": "ok", "style": "default"}],
+                        "versions": {"0": 0, "1": 0}, "inputs": {"100": 7}}
+                    for i in sub:
+                        spec["tasks"][i]["marks"].append("persist")
+                        if i == 0:
+                            spec["tasks"][0]["dirprod"] = where
+                    follow = {k: v for k, v in cfg.items() if k != "dry"} if cfg.get("dry") else {}
+                    hs.append({"tag": "dirprod", "spec": spec, "steps": [["build", {}]] + copy.deepcopy(ed) + [["build", dict(cfg)], ["build", follow]]})
+    return hs
+
+
+def newpred_scope(ctx):
+    """A persist task gets a NEW neighbour without any of its recorded neighbours or its own module changing: it is declared
+    `after="t0 or t3"`, and task 3 (own module, one or two products) is added to the project later — its products become
+    predecessors of the persist task. (Also: the new task is removed again.)"""
+    hs = []
+    for nprod in (1, 2):
+        for style in ("default", "annotated"):
+            for cfg in ({}, {"force": True}):
+                base = {"tasks": [
+                    {"id": 0, "module": 0, "deps": [100], "prods": [110], "after": [], "marks": [], "beh": "ok", "style": "default"},
+                    {"id": 2, "module": 1, "deps": [], "prods": [113], "after": [0, 3], "after_style": "expr", "marks": ["persist"], "beh": "ok", "style": style}],
+                    "versions": {"0": 0, "1": 0, "2": 0}, "inputs": {"100": 7}}
+                more = copy.deepcopy(base)
+                more["tasks"].append({"id": 3, "module": 2, "deps": [100], "prods": [115, 116][:nprod], "after": [], "marks": [], "beh": "ok", "style": "default"})
+                hs.append({"tag": "newpred", "spec": base,
+                           "steps": [["build", {}], ["respec", more], ["build", dict(cfg)], ["build", {}], ["respec", base], ["build", {}], ["build", {}]]})
+    return hs
+
+
 def histories(ctx):
     rng = ctx.rng
-    hs = small_scope(ctx) + stack_scope(ctx)
+    hs = small_scope(ctx) + stack_scope(ctx) + dirprod_scope(ctx) + newpred_scope(ctx)
     for i in range(ctx.scale(60, 900)):
         spec = engine.gen_spec(rng, nt=(2, 6), after_p=0.25, after_needs_prods=True, user_markers=True, prodless_p=0.15,
                                behs=("ok",) * 7 + ("early",),
@@ -217,6 +275,9 @@ def histories(ctx):
         if not any("persist" in t["marks"] for t in spec["tasks"]):
             rng.choice(spec["tasks"])["marks"].append("persist")
         engine.vary_decorators(rng, spec)
+        for t in spec["tasks"]:          # some persist tasks also have a directory-pattern product
+            if "persist" in t["marks"] and t["prods"] and t["beh"] == "ok" and t["style"] != "return" and rng.random() < 0.3:
+                t["dirprod"] = rng.choice(["a", "z"])
         ins = {int(k) for k in spec["inputs"]}
         for t in spec["tasks"]:           # some dependencies on inputs are hashed Python values instead of files
             hv = [d for d in t["deps"] if d in ins and rng.random() < 0.3]
